@@ -380,6 +380,8 @@ pub struct ModOpts<'a> {
     pub run_fn: &'a str,
     /// emit a second enum (`<name>Tw`) and call run_fn::<E, Tw>
     pub twin: Option<Twin>,
+    /// also emit `pub fn fz(a: &mut vrt::FzArg)` calling this generic function (libFuzzer targets)
+    pub fuzz_fn: Option<&'a str>,
 }
 
 #[derive(Clone, Copy, PartialEq, Eq, Debug)]
@@ -576,6 +578,9 @@ pub fn module_string(e: &EnumSpec, o: &ModOpts) -> ModuleSrc {
     match o.twin {
         None => {
             src.push(&format!("pub fn run(ctx: &mut vrt::Ctx) {{ {}::<{}>(ctx) }}", o.run_fn, t1));
+            if let Some(f) = o.fuzz_fn {
+                src.push(&format!("pub fn fz(a: &mut vrt::FzArg) {{ {}::<{}>(a) }}", f, t1));
+            }
         }
         Some(tw) => {
             let mut e2 = e.clone();
@@ -613,6 +618,9 @@ pub fn module_string(e: &EnumSpec, o: &ModOpts) -> ModuleSrc {
             });
             src.push("}");
             src.push(&format!("pub fn run(ctx: &mut vrt::Ctx) {{ {}::<{}, tw::{}>(ctx) }}", o.run_fn, t1, t2));
+            if let Some(f) = o.fuzz_fn {
+                src.push(&format!("pub fn fz(a: &mut vrt::FzArg) {{ {}::<{}, tw::{}>(a) }}", f, t1, t2));
+            }
         }
     }
     src.push("}");
@@ -658,6 +666,9 @@ pub fn module_iter(e: &EnumSpec, o: &ModOpts) -> ModuleSrc {
         );
     }
     src.push(&format!("pub fn run(ctx: &mut vrt::Ctx) {{ {}::<{}{}>(ctx) }}", o.run_fn, name, g.inst));
+    if let Some(f) = o.fuzz_fn {
+        src.push(&format!("pub fn fz(a: &mut vrt::FzArg) {{ {}::<{}{}>(a) }}", f, name, g.inst));
+    }
     src.push("}");
     ModuleSrc { enum_name: e.name.clone(), src }
 }
